@@ -1449,10 +1449,10 @@ def plan_jobs(ctx):
                          "n_cases": 400, "real_kernels": False, "stream": 12},
                         {"NUMBA_BOUNDSCHECK": "1", "NUMBA_NUM_THREADS": nthr, "OMP_WAIT_POLICY": "PASSIVE"}, timeout))
     else:
-        sched("omp", "omp", 0, "PASSIVE", THREADS_FULL, 30, 6, 21)
-        sched("workqueue", "workqueue", 0, "PASSIVE", THREADS_FULL, 30, 6, 22)
-        sched("omp+hogs", "omp", N_HOGS, "PASSIVE", THREADS_FULL, 12, 3, 23)
-        sched("workqueue+hogs", "workqueue", N_HOGS, "PASSIVE", THREADS_FULL, 12, 3, 24)
+        sched("omp", "omp", 0, "PASSIVE", THREADS_FULL, 40, 10, 21)
+        sched("workqueue", "workqueue", 0, "PASSIVE", THREADS_FULL, 40, 10, 22)
+        sched("omp+hogs", "omp", N_HOGS, "PASSIVE", THREADS_FULL, 15, 5, 23)
+        sched("workqueue+hogs", "workqueue", N_HOGS, "PASSIVE", THREADS_FULL, 15, 5, 24)
         sched("omp-default-wait-policy", "omp", 0, None, THREADS_FULL, 5, 1, 25)
         jobs.append(Job({**common, "mode": "sanitizer", "tag": "boundscheck", "threads": [1, 2, 3, 4, 7, 16], "reps_kernel": 5, "reps_list": 2,
                          "n_cases": 3000, "real_kernels": True, "stream": 26},
@@ -1502,7 +1502,7 @@ def run(ctx):
                 guarded(ctx, "structure", structure, ctx, L)
                 guarded(ctx, "canonical", canonical, ctx, L)
             guarded(ctx, "monomial_pairs", monomial_pairs, ctx, L, ctx.pick(2, 3), base)
-            used = guarded(ctx, "refmodel", refmodel, ctx, L, ctx.pick(3000, 40000), base, None, "R",
+            used = guarded(ctx, "refmodel", refmodel, ctx, L, ctx.pick(3000, 100000), base, None, "R",
                            ctx.pick(THREADS_QUICK + (1, 3), THREADS_FULL))
             ctx.note("refmodel_thread_counts_used", used)
             ctx.note("input_classes_seen(shape/coef)", dict(sorted(_CLASSES_SEEN.items())))
